@@ -15,7 +15,7 @@ TAG = "main" if REPO == "/repo" else "r" + hashlib.sha1(REPO.encode()).hexdigest
 WORK = os.path.join(VERIF, "work", TAG)
 WS = os.path.join(WORK, "ws")
 TARGET = os.path.join(WORK, "target")
-CRATES = ["core", "genner", "batchrt", "front"]
+CRATES = ["core", "genner", "batchrt", "front", "frontnc"]
 
 
 def log(*a):
